@@ -405,6 +405,7 @@ unsigned int ProcessExecutor::check()
                     timerResults.reset(new TimerResults);
 
                 PipeWriter pipewriter(pipes[1], mSettings.debugipc);
+                VERIF_CTX(iFileSettings != mFileSettings.end() ? iFileSettings->filename() : iFile->path());
                 VERIF_EVT("ChildStart", verif::kv("file", iFileSettings != mFileSettings.end() ? iFileSettings->filename() : iFile->path()) + verif::kv("lists", verif::addr(&supprs.nomsg) + "," + verif::addr(&supprs.nofail)));
                 CppCheck fileChecker(mSettings, supprs, pipewriter, timerResults.get(), false, mExecuteCommand);
                 unsigned int resultOfCheck = 0;
